@@ -1506,6 +1506,16 @@ func (ft *ftrans) ret(s *ast.ReturnStmt, e env) node {
 			failf("returned error is neither nil nor visibly non-nil: outside the subset")
 		}
 	}
+	// return a && b / a || b where b can panic: b is only evaluated when a does not decide
+	if len(f.results) == 1 && !f.fallible {
+		if be, ok := unparen(s.Results[0]).(*ast.BinaryExpr); ok && (be.Op == token.LAND || be.Op == token.LOR) && ft.canPanic(be.Y, e) {
+			retY := func(e2 env) node { return ft.ret(&ast.ReturnStmt{Results: []ast.Expr{be.Y}}, e2) }
+			if be.Op == token.LAND {
+				return ft.cond(be.X, e, retY, func(env) node { return nLeaf{ft.okTerm("false")} })
+			}
+			return ft.cond(be.X, e, func(env) node { return nLeaf{ft.okTerm("true")} }, retY)
+		}
+	}
 	// tail call of a function that may panic: its result is the result
 	if len(f.results) == 1 && !f.fallible {
 		if ce, ok := unparen(s.Results[0]).(*ast.CallExpr); ok {
@@ -1932,6 +1942,12 @@ func (ft *ftrans) cond(x ast.Expr, e env, th, el cont) node {
 	var pre []prelude
 	v := ft.expr(x, e, &pre)
 	ft.boolLike(v)
+	if len(pre) == 0 && v.s == "false" { // e.g. the error test of a callee whose error is always nil
+		return el(e)
+	}
+	if len(pre) == 0 && v.s == "true" {
+		return th(e)
+	}
 	return ft.wrap(pre, nIf{cond: v.s, th: th(e), el: el(e)})
 }
 
